@@ -8,6 +8,7 @@ extend-split and cell).  After every history the combined integral (and interpol
 equal the exact value.
 """
 import itertools
+import os
 import math
 
 import numpy as np
@@ -285,7 +286,8 @@ def configs(tier):
         for version in (6, 7, 8, 2, 3):
             dwc(2, 1, 2, version, False, True, 4, 1, towards=[[0.3, 0.3], [0.3, 0.8]])
         dwc(2, 1, 2, 6, False, False, 4, 1, modified=True, towards=[[0.3, 0.3]])
-        dwc(3, 1, 2, 6, False, True, 3, 1, towards=[[0.3, 0.3, 0.3]])
+        # d = 3 with two targets: several dimensions raise their maximum level while coarse regions remain elsewhere
+        dwc(3, 1, 2, 6, False, True, 3, 1, towards=[[0.3, 0.3, 0.3], [0.8, 0.3, 0.6]])
         # lmax - lmin = 2: anisotropic growth of the per-dimension maximum levels
         dwc(2, 1, 3, 6, False, True, 4, 1, towards=[[0.3, 0.3]])
         dwc(2, 1, 3, 7, False, True, 3, 1, towards=[[0.3, 0.8]])
